@@ -219,6 +219,13 @@ func (l c07) Exec(env *core.Env) *core.Result {
 			for i := 0; i < nmeta; i++ {
 				meta[fmt.Sprintf("meta.key/%d", i)] = fmt.Sprintf("value %d \"quoted\" ü", i)
 			}
+			// blob signing only: a key that merely resembles the reserved io.cncf.notary prefix. Whether such a key is legal
+			// is the signing API's call (it may refuse); once it has signed it, the key is user metadata like any other
+			nearReserved := ""
+			if isBlob && (op.Int(13)+op.Int(9))%5 == 0 {
+				nearReserved = []string{"io.cncf.notaryproject.build", "io.cncf.notary-mirror/origin", "io.cncf.notaryx", "io.cncf.notar", "IO.CNCF.NOTARY.x", "xio.cncf.notary.y", "io.cncf.notary"}[op.Int(9)%7]
+				meta[nearReserved] = "near the reserved prefix"
+			}
 			opts := notation.SignerSignOptions{SignatureMediaType: format, ExpiryDuration: expiry}
 			if op.Int(10) == 1 {
 				opts.SigningAgent = "my-agent/0.1"
@@ -253,6 +260,17 @@ func (l c07) Exec(env *core.Env) *core.Result {
 					defer cancel()
 				}
 				sig, _, err = notation.SignBlob(sctx, sgn, rd, notation.SignBlobOptions{SignerSignOptions: opts, ContentMediaType: mt, UserMetadata: meta})
+				if nearReserved != "" {
+					if err != nil && readerMode != 2 && readerMode != 7 {
+						res.Probe("metadata_key_near_the_reserved_prefix_refused")
+						trace = append(trace, map[string]any{"op": key, "result": "sign refused (metadata key " + nearReserved + ")"})
+						sim.Abstract(key + "|metarefused")
+						continue
+					}
+					if err == nil {
+						res.Probe("metadata_key_near_the_reserved_prefix_signed")
+					}
+				}
 				if readerMode == 7 {
 					res.Probe("context_ended_while_signing_a_blob")
 					if err != nil {
